@@ -31,7 +31,8 @@ From LV Require Import Base.Bytes.
    of that kind is by definition the transient answer below. *)
 Inductive ekind :=
 | EOther | EBrokenPipe | EPermissionDenied | EWouldBlock | ETimedOut | EWriteZero
-| EUnexpectedEof | EOutOfMemory | EInvalidData | EStorageFull.
+| EUnexpectedEof | EOutOfMemory | EInvalidData | EStorageFull
+| EIsADirectory | EFileTooLarge.   (* what File::create on a directory / a write past RLIMIT_FSIZE give (Model/SinkBuf.v) *)
 
 (* one answer of the sink to one `write(buf)` call with a non-empty buffer *)
 Inductive resp :=
